@@ -30,6 +30,10 @@ val buffer_line_interrupt : coq_N
 
 val buffer_line_cr : coq_N
 
+val buffer_queue_capacity : coq_N
+
+val buffer_add_blocks : bool
+
 val det_min_len : coq_N
 
 val det_marker : coq_N list
